@@ -1,7 +1,7 @@
 (* C17 Decoder robustness and leniency (partial: byte-level behaviour -- no panic on arbitrary bytes, zero value on
    error, destination untouched -- is explored on the real decoder at run time; the statements below are about the
    document tree, which is what the decoder sees after tokenising) *)
-From LD Require Import Base F32 Data Model Ops Codec CodecFacts PermDecode.
+From LD Require Import Base F32 Data Model Ops Codec CodecFacts PermDecode DefaultsDecode.
 From Coq Require Import Permutation.
 
 Theorem C17_unknown_ignored_flag : forall pre k v post,
@@ -118,3 +118,44 @@ Theorem C17_order_irrelevant_client_side_availability : forall l l', Permutation
   forall m, rd_csa (JObj l) m = rd_csa (JObj l') m.
 Proof. exact perm_csa. Qed.
 Print Assumptions C17_order_irrelevant_client_side_availability.
+
+(* ---- an omitted property equals its default ----
+   flag_defaults etc. list, per object, every property that has a default together with the default's spellings (an empty
+   list or null for list-valued properties, "" for strings, false, 0, null for optional integers, {} for the fallthrough);
+   a document that spells one of them out decodes exactly like the document without it. *)
+Theorem C17_default_is_omission_flag : forall pre post k d, NoDup (map fst (pre ++ (k, d) :: post)) -> In (k, d) flag_defaults ->
+  decode_flag (JObj (pre ++ (k, d) :: post)) = decode_flag (JObj (pre ++ post)).
+Proof. exact default_flag. Qed.
+Print Assumptions C17_default_is_omission_flag.
+Theorem C17_default_is_omission_segment : forall pre post k d, NoDup (map fst (pre ++ (k, d) :: post)) -> In (k, d) segment_defaults ->
+  decode_segment (JObj (pre ++ (k, d) :: post)) = decode_segment (JObj (pre ++ post)).
+Proof. exact default_segment. Qed.
+Print Assumptions C17_default_is_omission_segment.
+Theorem C17_default_is_omission_rule : forall pre post k d, NoDup (map fst (pre ++ (k, d) :: post)) -> In (k, d) rule_defaults ->
+  rd_rule (JObj (pre ++ (k, d) :: post)) = rd_rule (JObj (pre ++ post)).
+Proof. exact default_rule. Qed.
+Print Assumptions C17_default_is_omission_rule.
+Theorem C17_default_is_omission_clause : forall pre post k d, NoDup (map fst (pre ++ (k, d) :: post)) -> In (k, d) clause_defaults ->
+  rd_clause (JObj (pre ++ (k, d) :: post)) = rd_clause (JObj (pre ++ post)).
+Proof. exact default_clause. Qed.
+Print Assumptions C17_default_is_omission_clause.
+Theorem C17_default_is_omission_target : forall pre post k d, NoDup (map fst (pre ++ (k, d) :: post)) -> In (k, d) target_defaults ->
+  rd_target (JObj (pre ++ (k, d) :: post)) = rd_target (JObj (pre ++ post)).
+Proof. exact default_target. Qed.
+Print Assumptions C17_default_is_omission_target.
+Theorem C17_default_is_omission_prerequisite : forall pre post k d, NoDup (map fst (pre ++ (k, d) :: post)) -> In (k, d) prereq_defaults ->
+  rd_prereq (JObj (pre ++ (k, d) :: post)) = rd_prereq (JObj (pre ++ post)).
+Proof. exact default_prereq. Qed.
+Print Assumptions C17_default_is_omission_prerequisite.
+Theorem C17_default_is_omission_weighted_variation : forall pre post k d, NoDup (map fst (pre ++ (k, d) :: post)) -> In (k, d) wvar_defaults ->
+  rd_wvar (JObj (pre ++ (k, d) :: post)) = rd_wvar (JObj (pre ++ post)).
+Proof. exact default_wvar. Qed.
+Print Assumptions C17_default_is_omission_weighted_variation.
+Theorem C17_default_is_omission_segment_rule : forall pre post k d, NoDup (map fst (pre ++ (k, d) :: post)) -> In (k, d) segrule_defaults ->
+  rd_segrule (JObj (pre ++ (k, d) :: post)) = rd_segrule (JObj (pre ++ post)).
+Proof. exact default_segrule. Qed.
+Print Assumptions C17_default_is_omission_segment_rule.
+Theorem C17_default_is_omission_segment_target : forall pre post k d, NoDup (map fst (pre ++ (k, d) :: post)) -> In (k, d) segtarget_defaults ->
+  rd_segtarget (JObj (pre ++ (k, d) :: post)) = rd_segtarget (JObj (pre ++ post)).
+Proof. exact default_segtarget. Qed.
+Print Assumptions C17_default_is_omission_segment_target.
